@@ -51,10 +51,10 @@ func c19GenLiveBase(t *rapid.T) C19Live {
 	c.PoolFirst = rapid.Bool().Draw(t, "poolfirst")
 	c.Order = rapid.IntRange(0, 1).Draw(t, "order")
 	switch rapid.IntRange(0, 9).Draw(t, "limmode") {
-	case 0, 1, 2, 3:
+	case 0, 1, 2:
 		c.Lim = c19GenLim(t)
 		c.Pools = c19GenStuffedPools(t, c.N, c.Lim)
-	case 4:
+	case 3:
 		c.Lim = c19GenLim(t)
 		c.Pools = c19GenPools(t, c.N)
 	default:
